@@ -5,6 +5,7 @@
 //! [`read_log_bufread`], [`Opts`], the `render_*` functions in [`render`].
 
 pub mod adapter;
+pub mod adrive;
 pub mod corpus;
 pub mod drive;
 pub mod mutate;
